@@ -6,14 +6,16 @@ fields("xandikos.store.git.RepoCollectionMetadata", {"_repo": "obj:dulwich.repo.
 
 @contract("xandikos.store.git.RepoCollectionMetadata._write_config",
           params={"self": "obj:xandikos.store.git.RepoCollectionMetadata", "config": "obj:dulwich.config.ConfigFile"},
-          modifies=["self._repo"], assumed=True)
+          modifies=["self._repo"])
 class write_config_c:
-    """ASSUMED: serialising the ConfigFile and storing it as .git/config makes exactly its
-    contents the repository's configuration (dulwich write/read round trip; the property text
-    excludes ';' for this back end because the dulwich writer truncates it)."""
+    """Serialising the ConfigFile and storing it as .git/config makes exactly its contents the
+    repository's configuration - through dulwich's atomic named-file replacement and nothing
+    else (C04: no other write).  The dulwich write/read round trip itself is ASSUMED in the model
+    (the property text excludes ';' for this back end because the dulwich writer truncates it)."""
 
     def ensures(self, config):
-        return (repo_gitconfig(self._repo) == gitconfig_data(config)
+        return (effect_names() == ["put_named_file"]
+                and repo_gitconfig(self._repo) == gitconfig_data(config)
                 and repo_description(self._repo) == old(repo_description(self._repo))
                 and repo_head(self._repo) == old(repo_head(self._repo))
                 and repo_ncommits(self._repo) == old(repo_ncommits(self._repo)))
@@ -107,3 +109,45 @@ class repo_get_description_c:
 
     def ensures(self, result):
         return result == repo_description(self._repo).decode("utf-8")
+
+
+@contract("xandikos.store.git.RepoCollectionMetadata.set_order",
+          params={"self": "obj:xandikos.store.git.RepoCollectionMetadata", "order": "opt[str]"},
+          modifies=["self._repo"],
+          effects=[["metadata_write", "self"]])
+class repo_set_order_c:
+    def ensures(self, order):
+        want = order.encode("utf-8") if order is not None else b""
+        return (repo_gitconfig(self._repo) == old(repo_gitconfig(self._repo)).put(b"xandikos/calendar-order", want)
+                and repo_description(self._repo) == old(repo_description(self._repo)))
+
+
+@contract("xandikos.store.git.RepoCollectionMetadata.get_order",
+          params={"self": "obj:xandikos.store.git.RepoCollectionMetadata"}, returns="str")
+class repo_get_order_c:
+    def raises_KeyError(self):
+        return git_cfg(self, b"xandikos/calendar-order") is None or git_cfg(self, b"xandikos/calendar-order") == b""
+
+    def ensures(self, result):
+        return result == git_cfg(self, b"xandikos/calendar-order").decode("utf-8")
+
+
+@contract("xandikos.store.git.RepoCollectionMetadata.set_source_url",
+          params={"self": "obj:xandikos.store.git.RepoCollectionMetadata", "url": "opt[str]"},
+          modifies=["self._repo"],
+          effects=[["metadata_write", "self"]])
+class repo_set_source_url_c:
+    def ensures(self, url):
+        want = url.encode("utf-8") if url is not None else b""
+        return (repo_gitconfig(self._repo) == old(repo_gitconfig(self._repo)).put(b"xandikos/source", want)
+                and repo_description(self._repo) == old(repo_description(self._repo)))
+
+
+@contract("xandikos.store.git.RepoCollectionMetadata.get_source_url",
+          params={"self": "obj:xandikos.store.git.RepoCollectionMetadata"}, returns="str")
+class repo_get_source_url_c:
+    def raises_KeyError(self):
+        return git_cfg(self, b"xandikos/source") is None or git_cfg(self, b"xandikos/source") == b""
+
+    def ensures(self, result):
+        return result == git_cfg(self, b"xandikos/source").decode("utf-8")
